@@ -200,11 +200,9 @@ def run_batch_property(prop, tier, seed):
         partials, hangs, died = batch.run_wave(prop, out, seed + wave * 7919, st["cases"], max_len, profile=profile)
         for c, h in hangs:
             hv = h.get("hang") or {}
-            if prop in ("C01", "C07"):
-                violations.append(dict(property=prop, kind="hang", message="parse does not terminate within 30 s (peers take microseconds)",
-                                       grammar_id=hv.get("grammar"), rule=hv.get("rule"), input=hv.get("input"), crate=c))
-            else:
-                infra = "a batch process hung (watchdog) in %s: %s" % (c, json.dumps(hv)[:300])
+            # a wall-clock budget is never a correctness signal: termination is decided by the deterministic tracer fuel /
+            # depth bound (oracle-relative); a watchdog hit only makes the run inconclusive (exit 2)
+            infra = "a batch process hung (watchdog) in %s: %s" % (c, json.dumps(hv)[:300])
         for c, rc2 in died:
             infra = "batch process %s died with status %s" % (c, rc2)
         m = batch.merge(partials)
